@@ -729,6 +729,11 @@ func genValue(r *vh.Rng, t reflect.Type, implicitZero bool, hist func(string)) r
 			v.Set(reflect.ValueOf(sql.NullString{String: r.Pick(strPool), Valid: true}))
 		}
 		return v
+	case rawMsgType:
+		if !r.Chance(25) {
+			v.SetBytes([]byte(r.Pick([]string{`{"a":1}`, `[1,2.5,"x"]`, `"s"`, `12345678901234567890`, `null`, `true`, `{"n":{"m":[9007199254740993]}}`, `-0.1e-3`})))
+		}
+		return v
 	}
 	switch t.Kind() {
 	case reflect.Int, reflect.Int8, reflect.Int16, reflect.Int32, reflect.Int64:
@@ -743,11 +748,15 @@ func genValue(r *vh.Rng, t reflect.Type, implicitZero bool, hist func(string)) r
 		v.SetBool(r.Bool())
 	case reflect.String:
 		v.SetString(r.Pick(strPool))
-	case reflect.Slice: // []int64 (json payload)
+	case reflect.Interface: // an untyped json payload
+		if x := genJSONAny(r, 2); x != nil {
+			v.Set(reflect.ValueOf(x))
+		}
+	case reflect.Slice: // json payloads: []int64, []interface{}
 		if n := r.Intn(4); n > 0 {
 			sl := reflect.MakeSlice(t, n-1, n-1)
 			for i := 0; i < n-1; i++ {
-				sl.Index(i).SetInt(int64(genInt(r, 64, false)))
+				sl.Index(i).Set(genValue(r, t.Elem(), false, hist))
 			}
 			v.Set(sl)
 		}
@@ -755,7 +764,7 @@ func genValue(r *vh.Rng, t reflect.Type, implicitZero bool, hist func(string)) r
 		if n := r.Intn(4); n > 0 {
 			m := reflect.MakeMap(t)
 			for i := 0; i < n-1; i++ {
-				m.SetMapIndex(reflect.ValueOf(r.Pick(strPool)), reflect.ValueOf(int64(genInt(r, 64, false))))
+				m.SetMapIndex(reflect.ValueOf(r.Pick(strPool)), genValue(r, t.Elem(), false, hist))
 			}
 			v.Set(m)
 		}
@@ -765,6 +774,39 @@ func genValue(r *vh.Rng, t reflect.Type, implicitZero bool, hist func(string)) r
 		}
 	}
 	return v
+}
+
+// genJSONAny draws a value of the shapes encoding/json produces for untyped targets (float64 numbers,
+// strings, bools, nil, []interface{}, map[string]interface{}), so that a faithful round trip is DeepEqual.
+func genJSONAny(r *vh.Rng, depth int) interface{} {
+	k := r.Intn(8)
+	if depth <= 0 && k >= 5 {
+		k = r.Intn(5)
+	}
+	switch k {
+	case 0:
+		return nil
+	case 1:
+		return genF64(r)
+	case 2:
+		return float64(int64(genInt(r, 32, false))) // an integral number
+	case 3:
+		return r.Pick(strPool)
+	case 4:
+		return r.Bool()
+	case 5, 6:
+		n := r.Intn(4)
+		l := make([]interface{}, n)
+		for i := range l {
+			l[i] = genJSONAny(r, depth-1)
+		}
+		return l
+	}
+	m := map[string]interface{}{}
+	for i := r.Intn(4); i > 0; i-- {
+		m[r.Pick(strPool)] = genJSONAny(r, depth-1)
+	}
+	return m
 }
 
 func genStruct(r *vh.Rng, tbl *sqlgen.Table, hist func(string)) interface{} {
@@ -1165,6 +1207,9 @@ func runCase(run *vh.Run, schema *sqlgen.Schema, idx int, c Case) *obs {
 				if f24[col] {
 					sig = "binlog-unsigned-int-narrower-than-field"
 				}
+				if cd := tbl.ColumnsByName[col].Descriptor; cd.Type == bytesType && cd.Tags.Contains("json") {
+					sig = "json-tagged-bytes-not-decoded-as-json"
+				}
 				failCap(run, idx, sig, fmt.Sprintf("row %d column %s: sent %s, representation %s, decoded %s", k, col, printStruct(tbl, ob.x), describeRow(ro), printStruct(tbl, ro.built)), c)
 			} else {
 				run.Hist("roundtrip:ok")
@@ -1277,6 +1322,7 @@ func runCase(run *vh.Run, schema *sqlgen.Schema, idx int, c Case) *obs {
 		ptrZeroImplicit := false // a pointer to a zero value on an implicitnull column
 		ptrOnMarshaler := false  // a pointer on a non-pointer binary-tagged column whose type has Marshal
 		ptrNilJSON := false      // a pointer to a nil slice / map on a json-tagged column
+		jsonBytes := false       // a json-tagged []byte column: Valuer encodes base64 JSON, Scanner copies the text
 		ncols := 1 + r.Intn(3)
 		if r.Chance(10) {
 			ncols = 0
@@ -1346,6 +1392,12 @@ func runCase(run *vh.Run, schema *sqlgen.Schema, idx int, c Case) *obs {
 				if ob.descs[ci].kind == "cbin" && !ob.descs[ci].ptr {
 					ptrOnMarshaler = true
 				}
+				_ = rv
+			}
+			if col.Descriptor.Type == bytesType && col.Descriptor.Tags.Contains("json") {
+				jsonBytes = true
+			}
+			if rv := reflect.ValueOf(val); rv.IsValid() && rv.Kind() == reflect.Ptr && !rv.IsNil() {
 				if k := rv.Elem().Kind(); col.Descriptor.Tags.Contains("json") && (k == reflect.Slice || k == reflect.Map) && rv.Elem().IsNil() {
 					ptrNilJSON = true
 				}
@@ -1415,6 +1467,8 @@ func runCase(run *vh.Run, schema *sqlgen.Schema, idx int, c Case) *obs {
 										sig = "proto-pointer-to-zero-on-implicitnull-column"
 									} else if ptrNilJSON {
 										sig = "proto-pointer-to-nil-on-json-column"
+									} else if jsonBytes {
+										sig = "json-tagged-bytes-not-decoded-as-json"
 									}
 									failCap(run, idx, sig, fmt.Sprintf("filter %v -> %v on row %s: %v -> %v", fo.filter, fo.back, printStruct(tbl, row), fo.verdicts[i], v2), c)
 									break
